@@ -74,6 +74,24 @@ type Schema struct {
 	Tables []Table `json:"tables"`
 }
 
+// SettleShortFKs clears the short-form flag of foreign keys of the current schema whose parent does not keep its primary key
+// in the desired schema: a constraint written REFERENCES p follows p's primary key wherever it goes, so the same text
+// would mean another foreign key after the migration (Atlas compares the resolved columns, not the text).
+func SettleShortFKs(cur, desired *Schema) {
+	for ti := range cur.Tables {
+		for fi := range cur.Tables[ti].FKs {
+			fk := &cur.Tables[ti].FKs[fi]
+			if !fk.Short {
+				continue
+			}
+			p := desired.Table(fk.RefTable)
+			if p == nil || strings.Join(p.PK, "\x00") != strings.Join(fk.RefCols, "\x00") {
+				fk.Short = false
+			}
+		}
+	}
+}
+
 func (s *Schema) Table(name string) *Table {
 	for i := range s.Tables {
 		if s.Tables[i].Name == name {
